@@ -66,6 +66,11 @@ type exchange struct {
 	// rejects an honest exchange, to tell "the client refuses a correct answer"
 	// (allowed by the statement: counted, not a harness failure) from a broken lab
 	answerOK func(rec *recorded) bool
+	// followUp, if set, builds a further RPC on the returned revision and runs
+	// it against the honest host; it is used on rows where the host was honest
+	// throughout (or the returned revision is the previous one): what the renter
+	// holds after a success must be what the host holds
+	followUp func(res any) *finding
 	// gap: the contract the exchange revises has Capacity > Filesize (it was
 	// appended to and then partly freed)
 	gap bool
@@ -127,6 +132,9 @@ func sansSigs(fc types.V2FileContract) types.V2FileContract {
 func checkRevision(l *rhpmitm.Lab, rpc string, got, want types.V2FileContract, prev types.V2FileContract) (fs []finding) {
 	if !hostSigValid(l, got) {
 		fs = append(fs, finding{rpc + ":returned-revision-host-sig-invalid", "the returned revision's host signature does not verify over the returned object", map[string]any{"returned": got}})
+	}
+	if !renterSigValid(l, got) {
+		fs = append(fs, finding{rpc + ":returned-revision-renter-sig-invalid", "the returned revision's renter signature does not verify over the returned object", map[string]any{"returned": got}})
 	}
 	if sansSigs(got) != sansSigs(want) {
 		fs = append(fs, finding{rpc + ":returned-revision-not-successor", "the returned revision is not the locally computable successor of the previous revision", map[string]any{"returned": got, "expected": want, "previous": prev}})
@@ -218,10 +226,29 @@ func (f *family) honest(sc *scenario, variant string) (*recorded, *exchange) {
 		f.dead = true
 		return nil, nil
 	}
-	if fs := ex.oracle(out.Res, rec); len(fs) > 0 {
-		harnessFail(f.r, fmt.Sprintf("oracle rejects the honest %s/%s exchange", sc.rpc, variant), fmt.Errorf("%s: %s", fs[0].sig, fs[0].what))
-		f.dead = true
-		return nil, nil
+	fs := ex.oracle(out.Res, rec)
+	if len(fs) == 0 && ex.followUp != nil {
+		if fd := ex.followUp(out.Res); fd != nil {
+			fs = append(fs, *fd)
+		}
+	}
+	if len(fs) > 0 {
+		// the oracle's clauses are the property's own clauses: a successful call
+		// against the HONEST host that breaks one is a violation like any other
+		// (witness: the exchange without any fault) - not a harness inconsistency
+		cse := c10Case{RPC: sc.rpc, Variant: variant}
+		for _, fd := range fs {
+			f.r.Violation(fd.sig, fd.what+" (honest host, no fault injected)", cse, fd.detail)
+		}
+		f.r.Count("honest_exchange_breaks_the_oracle:"+sc.rpc, 1)
+		if ex.after != nil {
+			if err := ex.after(); err != nil {
+				harnessFail(f.r, "after honest exchange", err)
+				f.dead = true
+				return nil, nil
+			}
+		}
+		return nil, ex
 	}
 	if ex.after != nil {
 		if err := ex.after(); err != nil {
@@ -449,7 +476,13 @@ func (f *family) runCase(sc *scenario, variant string, muts []mutation, donor *r
 				r.Count("unauthenticated_by_design_success:"+sc.rpc, 1)
 			}
 		}
-		for _, fd := range ex.oracle(out.Res, ap.seen) {
+		fds := ex.oracle(out.Res, ap.seen)
+		if len(fds) == 0 && ex.followUp != nil && changed == 0 && !foreignCase {
+			if fd := ex.followUp(out.Res); fd != nil {
+				fds = append(fds, *fd)
+			}
+		}
+		for _, fd := range fds {
 			r.Violation(fd.sig, fd.what, cse, fd.detail)
 		}
 		r.Count("success_oracle_evaluations", 1)
@@ -592,7 +625,7 @@ func (f *family) runLenient(sc *scenario) {
 // ---- C10 entry ----
 
 func runC10(r *mon.Run, replay string) {
-	r.Rule("fault table = RPC x host->renter message x field (reflection walk of the typed message: every byte array, currency, integer, bool, string, time, slice (first and last element), pointer, resolution type) x operator {flip low/high bit, zero, max, +1, -1, truncate, extend, duplicate, swap neighbours, swap with the same field of another recorded exchange} plus message-level faults {RPCError injection, cut before/after, half-sent message, trailing garbage, whole message of another exchange, silent host, raw sector data flip/truncate/extend/zero} plus re-signing with the real host key after altering the signed object; plus coherent alternatives built by the man-in-the-middle with core's proof builders (valid proof for another range / leaf / root set, alone and with a forged final signature); plus a LENIENT hostile host holding the real host key: for caller parameters that are well-formed and ill-formed (free index lists with duplicates in every position pattern, out of order, out of range, empty; sector-roots ranges on an empty contract, at and beyond the end, zero length, overflowing; reads with unaligned offset / unaligned end / zero length / beyond the sector; writes of unaligned or zero length; empty / repeated / unknown append lists) it executes the request exactly as received where the honest server refuses it, builds the matching proof and countersigns, and - per request - also answers with a proof built for ANOTHER index set / range than the requested one (an in-range substitute for an out-of-range index or range, one appended root more or fewer) or with one subtree hash / leaf hash / root / accepted flag too few or too many; for free and append its final answer COUNTERSIGNS WHICHEVER REVISION THE RENTER ACTUALLY SIGNED (it tries every deletion / append count until the renter's signature verifies, then signs that with its real key), so a client whose signed revision disagrees with its own request and proof (duplicate indices counted twice, ...) is refused by the honest host and accepted by this one; every client call is guarded, a panic is the violation client-panic:<rpc>; an honest exchange that fails makes the run INCONCLUSIVE (it succeeds on the unchanged tree) but is not fatal: the rows that need no recording still run and a violation found there decides; reads also cover zero-tailed, zero-headed and all-zero sectors (whole and partial), answered truncated at every 64-byte-aligned class (one leaf, inside the data, at and just behind the data/zero boundary, deep inside the zeros, one leaf short) with an empty proof, the honest proof of the shorter range, or the proof of the requested range; plus HISTORIES append -> free (some) -> append / free / roots / fund / replenish / renew / refresh, so that contracts with Capacity > Filesize go through every revision-returning RPC, and forgers that recompute the append answer consistently for a WRONG old leaf count (capacity-shaped tree, file size +-1, +2, double, half, zero: subtree roots, new root and final signature) and the free answer over the halved view of the tree (same root, ceil(n/2) leaves); when the client rejects an honest, model-correct answer the variant is counted (honest_answer_rejected_by_client:<rpc>), gets no field table, and the forgery rows still decide; plus a FOREIGN PEER: every variant of every RPC is run over a transport whose PeerKey() is not the host key of the contract, once with a peer that runs the exchange correctly (the honest server does) but countersigns every revision / contract / renewal / price table with its transport key, once with the genuine host signatures - success must still carry a host signature valid under the CONTRACT's host key - the oracle then compares the result with a reference model of the CALLER's parameters (set semantics for free, the renter-known roots for sector roots, the stored bytes for read), independent of the client's own arithmetic; the table is enumerated completely (exhaustive over the table), thorough adds PRNG double mutations; a case is non-trivial when the fault changed the bytes the renter received; oracle only when the client call returned success")
+	r.Rule("fault table = RPC x host->renter message x field (reflection walk of the typed message: every byte array, currency, integer, bool, string, time, slice (first and last element), pointer, resolution type) x operator {flip low/high bit, zero, max, +1, -1, truncate, extend, duplicate, swap neighbours, swap with the same field of another recorded exchange} plus message-level faults {RPCError injection, cut before/after, half-sent message, trailing garbage, whole message of another exchange, silent host, raw sector data flip/truncate/extend/zero} plus re-signing with the real host key after altering the signed object; plus coherent alternatives built by the man-in-the-middle with core's proof builders (valid proof for another range / leaf / root set, alone and with a forged final signature); plus a LENIENT hostile host holding the real host key: for caller parameters that are well-formed and ill-formed (free index lists with duplicates in every position pattern, out of order, out of range, empty; sector-roots ranges on an empty contract, at and beyond the end, zero length, overflowing; reads with unaligned offset / unaligned end / zero length / beyond the sector; writes of unaligned or zero length; empty / repeated / unknown append lists) it executes the request exactly as received where the honest server refuses it, builds the matching proof and countersigns, and - per request - also answers with a proof built for ANOTHER index set / range than the requested one (an in-range substitute for an out-of-range index or range, one appended root more or fewer) or with one subtree hash / leaf hash / root / accepted flag too few or too many; for free and append its final answer COUNTERSIGNS WHICHEVER REVISION THE RENTER ACTUALLY SIGNED (it tries every deletion / append count until the renter's signature verifies, then signs that with its real key), so a client whose signed revision disagrees with its own request and proof (duplicate indices counted twice, ...) is refused by the honest host and accepted by this one; every client call is guarded, a panic is the violation client-panic:<rpc>; zero-cost replenish rows (all at target, a single account at target, mixed, the second of two identical calls, a lenient host answering all-zero deposits): the returned revision must be byte-equal to the previous one with both signatures valid, and a follow-up RPC built on the revision a replenish call returned must be served by the honest host; a successful exchange with the HONEST host that breaks an oracle clause is a violation (witness without fault), not a harness inconsistency; an honest exchange that fails makes the run INCONCLUSIVE (it succeeds on the unchanged tree) but is not fatal: the rows that need no recording still run and a violation found there decides; reads also cover zero-tailed, zero-headed and all-zero sectors (whole and partial), answered truncated at every 64-byte-aligned class (one leaf, inside the data, at and just behind the data/zero boundary, deep inside the zeros, one leaf short) with an empty proof, the honest proof of the shorter range, or the proof of the requested range; plus HISTORIES append -> free (some) -> append / free / roots / fund / replenish / renew / refresh, so that contracts with Capacity > Filesize go through every revision-returning RPC, and forgers that recompute the append answer consistently for a WRONG old leaf count (capacity-shaped tree, file size +-1, +2, double, half, zero: subtree roots, new root and final signature) and the free answer over the halved view of the tree (same root, ceil(n/2) leaves); when the client rejects an honest, model-correct answer the variant is counted (honest_answer_rejected_by_client:<rpc>), gets no field table, and the forgery rows still decide; plus a FOREIGN PEER: every variant of every RPC is run over a transport whose PeerKey() is not the host key of the contract, once with a peer that runs the exchange correctly (the honest server does) but countersigns every revision / contract / renewal / price table with its transport key, once with the genuine host signatures - success must still carry a host signature valid under the CONTRACT's host key - the oracle then compares the result with a reference model of the CALLER's parameters (set semantics for free, the renter-known roots for sector roots, the stored bytes for read), independent of the client's own arithmetic; the table is enumerated completely (exhaustive over the table), thorough adds PRNG double mutations; a case is non-trivial when the fault changed the bytes the renter received; oracle only when the client call returned success")
 	r.Assume("core (rhp/v4 merkle, sighash, Revise* functions) is the trusted base for computing expected roots and successor revisions")
 	r.Assume("the in-repo server, EphemeralContractor and EphemeralSectorStore are the honest peer behind the man-in-the-middle; transports' own framing (siamux/quic) is not mutated")
 	r.Extra("exhaustive", true)
@@ -697,6 +730,7 @@ func runC10(r *mon.Run, replay string) {
 		r.Floor("full_sector_reads_of_zero_tailed_sectors_answered_truncated", 30)
 		floorUnlessRejected("append", "lenient_host_cases:append", 35)
 		r.Floor("lenient_host_cases:write", 4)
+		r.Floor("follow_up_rpcs_on_returned_revision", 30)
 		r.Floor("lenient_host:client_success", 10)
 		r.Floor("lenient_host:countersigned_what_the_honest_host_refused:free", 50)
 		r.Floor("lenient_host:answered_where_honest_host_differs", 3)
@@ -2297,8 +2331,14 @@ func buildAccountFamily(f *family) error {
 			fs = append(fs, finding{rpc + ":revision-moves-more-than-bound", "the returned revision moves more value than target x number of accounts", map[string]any{"moved": moved, "bound": bound}})
 		}
 		if total.IsZero() {
+			// nothing to deposit: the exchange ends after the host's first message,
+			// the host signs and persists nothing - the only revision the call can
+			// return with a valid host signature is the caller's current one
+			if !hostSigValid(l, rev) || !renterSigValid(l, rev) {
+				fs = append(fs, finding{rpc + ":returned-revision-host-sig-invalid", "zero-cost replenish reported success with a revision that is not signed by both parties (the exchange ended before anything was signed)", map[string]any{"returned": rev, "previous": prev.Revision}})
+			}
 			if rev != prev.Revision {
-				fs = append(fs, finding{rpc + ":zero-cost-revision-changed", "zero-cost replenish returned a revision different from the previous one", rev})
+				fs = append(fs, finding{rpc + ":zero-cost-revision-changed", "zero-cost replenish returned a revision different from the previous one (the host holds the previous one)", map[string]any{"returned_revision_number": rev.RevisionNumber, "previous_revision_number": prev.Revision.RevisionNumber}})
 			}
 			return fs
 		}
@@ -2309,11 +2349,41 @@ func buildAccountFamily(f *family) error {
 		return append(fs, checkRevision(l, rpc, rev, want, prev.Revision)...)
 	}
 
+	// followUpOn builds a further RPC (a tiny account funding) on the revision a
+	// replenish call returned and runs it against the honest host: the host must
+	// serve it, i.e. the renter holds what the host holds
+	followUpOn := func(rpc string, rev types.V2FileContract) *finding {
+		if err := l.Barrier(); err != nil {
+			return nil
+		}
+		ctx, cancel := rhpmitm.Ctx()
+		defer cancel()
+		dep := []rhp4.AccountDeposit{{Account: newAccounts(1)[0], Amount: types.NewCurrency64(1000)}}
+		_, err := rhp.RPCFundAccounts(ctx, l.T, l.HostNode.CM.TipState(), l.Signer, rhp.ContractRevision{ID: c.cur.ID, Revision: rev}, dep)
+		f.r.Count("follow_up_rpcs_on_returned_revision", 1)
+		if err != nil {
+			return &finding{rpc + ":returned-revision-not-served-by-host", "a follow-up RPC built on the revision the successful call returned is refused by the honest host (the renter does not hold what the host holds): " + err.Error(), map[string]any{"returned_revision_number": rev.RevisionNumber}}
+		}
+		return nil
+	}
+	// zeroDeposits is the lenient host that answers "nothing to deposit" for
+	// accounts that are not at target
+	zeroDeposits := func(m *rhpmitm.Msg, mu mutation, _ *recorded) bool {
+		resp, ok := m.Obj.(*rhp4.RPCReplenishAccountsResponse)
+		if mu.Op != "lenient:zero-deposits" || m.Err != nil || !ok {
+			return false
+		}
+		for i := range resp.Deposits {
+			resp.Deposits[i].Amount = types.ZeroCurrency
+		}
+		return true
+	}
 	// replenish accounts: "2new" = two fresh accounts (full four-message
 	// exchange), "1new1full" = one fresh and one already at target,
 	// "full" = all at target (two-message exchange, zero cost)
 	fullAccounts := newAccounts(2)
-	replAcc := &scenario{rpc: "replenish-accounts", nHost: 2, variants: []string{"2new", "1new1full", "full"}}
+	replAcc := &scenario{rpc: "replenish-accounts", nHost: 2, variants: []string{"2new", "1new1full", "full", "repeat", "full-one"},
+		lenient: []string{"2new|zero-deposits", "1new1full|zero-deposits", "full|zero-deposits", "full", "repeat"}}
 	fullReady := false
 	replAcc.prepare = func(variant string) (*exchange, error) {
 		if !fullReady {
@@ -2340,9 +2410,30 @@ func buildAccountFamily(f *family) error {
 			accs = []rhp4.Account{newAccounts(1)[0], fullAccounts[0]}
 		case "full":
 			accs = fullAccounts
+		case "full-one":
+			accs = fullAccounts[:1]
+		case "repeat":
+			// the second of two identical calls: the first one (honest) brings
+			// fresh accounts to the target
+			accs = newAccounts(2)
+			ctx, cancel := rhpmitm.Ctx()
+			_, err := rhp.RPCReplenishAccounts(ctx, l.T, rhp.RPCReplenishAccountsParams{Accounts: accs, Target: target, Contract: c.cur}, l.HostNode.CM.TipState(), l.Signer)
+			cancel()
+			if err != nil {
+				return nil, fmt.Errorf("%w: honest replenish failed: %v", rhpmitm.ErrHarness, err)
+			}
+			if err := l.Barrier(); err != nil {
+				return nil, err
+			}
+			if err := c.resync(); err != nil {
+				return nil, err
+			}
 		}
 		prev := c.cur
 		ex := &exchange{
+			followUp: func(res any) *finding {
+				return followUpOn("replenish-accounts", res.(rhp.RPCReplenishAccountsResult).Revision)
+			},
 			call: func(ctx context.Context) (any, error) {
 				return rhp.RPCReplenishAccounts(ctx, l.T, rhp.RPCReplenishAccountsParams{Accounts: accs, Target: target, Contract: prev}, l.HostNode.CM.TipState(), l.Signer)
 			},
@@ -2378,12 +2469,14 @@ func buildAccountFamily(f *family) error {
 			rev, _, err := rhp4.ReviseForReplenish(prev.Revision, target.Mul64(uint64(fresh)))
 			return rev, err == nil
 		})
+		ex.custom = chainCustom(ex.custom, zeroDeposits)
 		return ex, nil
 	}
 
 	fullPools := newAccounts(2)
 	poolsReady := false
-	replPool := &scenario{rpc: "replenish-pools", nHost: 2, variants: []string{"2new", "1new1full", "full"}}
+	replPool := &scenario{rpc: "replenish-pools", nHost: 2, variants: []string{"2new", "1new1full", "full", "repeat", "full-one"},
+		lenient: []string{"2new|zero-deposits", "1new1full|zero-deposits", "full|zero-deposits", "full", "repeat"}}
 	replPool.prepare = func(variant string) (*exchange, error) {
 		if !poolsReady {
 			ctx, cancel := rhpmitm.Ctx()
@@ -2408,9 +2501,28 @@ func buildAccountFamily(f *family) error {
 			pools = []rhp4.Account{newAccounts(1)[0], fullPools[0]}
 		case "full":
 			pools = fullPools
+		case "full-one":
+			pools = fullPools[:1]
+		case "repeat":
+			pools = newAccounts(2)
+			ctx, cancel := rhpmitm.Ctx()
+			_, err := rhp.RPCReplenishPools(ctx, l.T, rhp.RPCReplenishPoolsParams{Pools: pools, Target: target, Contract: c.cur}, l.HostNode.CM.TipState(), l.Signer)
+			cancel()
+			if err != nil {
+				return nil, fmt.Errorf("%w: honest replenish pools failed: %v", rhpmitm.ErrHarness, err)
+			}
+			if err := l.Barrier(); err != nil {
+				return nil, err
+			}
+			if err := c.resync(); err != nil {
+				return nil, err
+			}
 		}
 		prev := c.cur
 		ex := &exchange{
+			followUp: func(res any) *finding {
+				return followUpOn("replenish-pools", res.(rhp.RPCReplenishPoolsResult).Revision)
+			},
 			call: func(ctx context.Context) (any, error) {
 				return rhp.RPCReplenishPools(ctx, l.T, rhp.RPCReplenishPoolsParams{Pools: pools, Target: target, Contract: prev}, l.HostNode.CM.TipState(), l.Signer)
 			},
@@ -2446,6 +2558,7 @@ func buildAccountFamily(f *family) error {
 			rev, _, err := rhp4.ReviseForReplenish(prev.Revision, target.Mul64(uint64(fresh)))
 			return rev, err == nil
 		})
+		ex.custom = chainCustom(ex.custom, zeroDeposits)
 		return ex, nil
 	}
 	f.scenarios = []*scenario{fund, replAcc, replPool}
